@@ -25,6 +25,8 @@ def main():
         if a in ("all", "missed"):
             for p in sorted(glob.glob(os.path.join(VERIF, "seeded", "C*", "*", "meta.json"))):
                 m = json.load(open(p))
+                if m.get("obsolete"):
+                    continue
                 if a == "all" or not m.get("check_result", {}).get("caught"):
                     targets.append(os.path.relpath(os.path.dirname(p), os.path.join(VERIF, "seeded")))
         else:
